@@ -69,6 +69,23 @@ def decoder_cases(tier, seed):
                         cases.append({'id': 'd%05d' % i, 'stream': 'sstream' if i % 2 else 'ifstream', 'segs': segs, 'ops': ['skip', op1, 'peek']})
                         exps.append((['ok', END, END], start + have, 'straddle', op1))
                         i += 1
+    # a long definite-length string (read or skipped) with the input cut inside it, before and beyond the window end
+    for L in (70000, 140000, 66000):
+        for major, rd in ((2, 'bs'), (3, 'tx')):
+            head = cbor.enc_head(major, L, 4)
+            cutset = sorted(set([1, 2, 100, L - 1, L // 2] + [k * W + d - 5 for k in (1, 2) for d in range(-3, 4) if 0 < k * W + d - 5 < L]))
+            for have in cutset:
+                for op1 in (rd, 'skip'):
+                    segs = [{'hex': head.hex()}, {'rep': '7a', 'n': have}]
+                    cases.append({'id': 'd%05d' % i, 'stream': 'sstream' if i % 2 else 'ifstream', 'segs': segs, 'ops': [op1, 'peek', op1]})
+                    exps.append(([END, END, END], 5 + have, 'cut-inside-string', op1))
+                    i += 1
+            # the same string nested as the value of a map entry inside an array that is skipped as a whole
+            for have in cutset[::3]:
+                segs = [{'hex': '81a10c' + head.hex()}, {'rep': '7a', 'n': have}]
+                cases.append({'id': 'd%05d' % i, 'stream': 'sstream', 'segs': segs, 'ops': ['skip', 'peek']})
+                exps.append(([END, END], 8 + have, 'cut-inside-nested-string', 'skip'))
+                i += 1
     # streams that cannot be read: never opened, missing file, a directory
     for fo in FIRST_OPS:
         for stream, extra in (('unopened', {}), ('ifstream', {'path': '/nonexistent/verif/input'}), ('ifstream', {'path': '/tmp'})):
